@@ -407,6 +407,12 @@ theorem process_modes :
     modeConstants = [("PROXIMITY", 0), ("ALLOCATION", 1), ("DIRECTION", 2)] ∧
     noneMeansInf = true ∧ defaultMax = ["np.inf", "np.inf", "np.inf"] := by decide
 
+open XrsVerif.Gen.ProximityFacts in
+/-- the row buffer the target test reads (`scan_line`) is allocated with the raster's own dtype: the stored cell values
+    reach `source_line[pixel] == values[i]` / `!= 0` unchanged (no narrowing to float32 as for the output buffers), which is
+    what lets the model test targets on the exact stored values (`isTargetVal` on rationals) -/
+theorem scan_line_keeps_raster_dtype : scanLineDtype = .imgDtype := by decide
+
 /-- the generated `euclidean_distance` kernel -/
 theorem euclid_kernel (x1 x2 y1 y2 : K) :
     Gen.euclidean_distance.cell (dirEnv (some x1 : NV K) (some x2) (some y1) (some y2)) (fun _ _ _ => none) (fun _ => []) =
